@@ -103,6 +103,28 @@ Proof.
   rewrite Hput. reflexivity.
 Qed.
 
+(* a change attempted in a read-only selection (and a refused SEARCH) runs the trailing flush only *)
+Theorem refused_command_changes_nothing_shared w i w' out oc :
+  do_cmd w i CSearchBad = (w', out, oc) ->
+  same_db w w' /\ (forall mb, fresh_view w' mb = fresh_view w mb) /\
+  (forall j, j <> i -> get_sess w' j = get_sess w j).
+Proof.
+  unfold do_cmd. destruct (get_sess w i) as [s|] eqn:G.
+  2:{ intros H. injection H as <- _ _. split; [apply same_db_refl|]. split; reflexivity. }
+  assert (Triv : forall (o1 : list resp) (c1 : outcome), (w, o1, c1) = (w', out, oc) ->
+            same_db w w' /\ (forall mb, fresh_view w' mb = fresh_view w mb) /\ (forall j, j <> i -> get_sess w' j = get_sess w j)).
+  { intros o1 c1 H. injection H as <- _ _. split; [apply same_db_refl|]. split; reflexivity. }
+  destruct (ss_idle s); [apply Triv|].
+  destruct (ss_sel s) as [sel|]; [|apply Triv].
+  unfold finish. rewrite broadcast_nil.
+  assert (Hset : set_sess (w_sess w) w = w) by (destruct w; reflexivity). rewrite Hset. rewrite G.
+  destruct (sess_flushes _ s) as [[s1 o1]|]; [|apply Triv].
+  intros H. injection H as <- _ _.
+  split; [apply put_sess_db|]. split.
+  - intros mb. apply same_db_fresh. split; [|split; [|split]]; reflexivity.
+  - intros j Hj. unfold get_sess, put_sess, set_sess. cbn [w_sess]. apply nth_upd_other. exact Hj.
+Qed.
+
 (* satisfiable: an unseen message, the examining session fetches its body; the database and the view stay unseen *)
 Definition ro_w0 : world :=
   mkW [(1, [])] [[mkRow 1 1 false]] [2] 2 [mkSess (Some 0) (mkS [mkSmsg 1 1 []] []) [] false].
